@@ -1,7 +1,8 @@
 """C14 — encoding is a pure function of the document.
 
 Theorems: lean/Props/C14.lean about `Model.World` (colour context, strategy registry, caller-owned
-objects and frames, constructed documents; histories of any length).
+objects and frames, constructed documents; histories of any length); lean/Props/C14memo.lean about keyed
+stores (caches) in general and in the world (`Model.Memo`, `Model.WorldMemo`).
 
 Tie to the code on every run:
   unit level         real `color_service.get_rtf_color_index` / `Utils._get_color_index` /
@@ -17,6 +18,12 @@ Tie to the code on every run:
                      length) to the string a FRESH SUBPROCESS produces for the same constructor call on
                      freshly created equal-valued objects; two consecutive `rtf_encode()` calls agree;
                      every caller-owned DataFrame equals its pre-history copy (values, schema).
+                     A second family of documents per pool makes the string widths that pagination measures
+                     observable in the bytes (cell texts a fraction of a percent from a wrap edge, one font file
+                     at nearby non-half-point sizes, see `gen_measured`): a store of loaded fonts / measured
+                     widths / line counts whose key is coarser than the request (`Props/C14memo.lean`) changes
+                     the page breaks of a later document.  Direct `get_string_width` calls are operations of
+                     these histories; their results are compared with the stateless Pillow measurement.
                      Model agreement: outcome kind of every operation, the target's colour table, the set
                      of colour indices written, `col_rel_width` of the document's body/headers, and that
                      no caller-owned component changed.
@@ -43,7 +50,16 @@ RULE = ("pool per round: ≥ 12 document kinds (plain, two coloured palettes, mu
         "one-element-width body shared, width-less header shared by bodies of different widths, short widths "
         "(IndexError)), page/title/subline/footnote/source/page header/footer objects and frames shared at random; "
         "histories: 0..4 prior operations + drops; non-trivial = at least one prior encode or a prior construct that "
-        "shares a component with the target; distinct by (operation kinds, kinds of the documents, target kind, reuse)")
+        "shares a component with the target; distinct by (operation kinds, kinds of the documents, target kind, reuse). "
+        "Per round also a MEASURED family (appended to the pool, own histories): 9-11 paginated documents on one page "
+        "object whose cell texts have a Pillow width k·(1+δ) column widths, δ = ±0.15 % … ±4.8 % (so any drift of a "
+        "measured string width moves a page break), using one font file at nearby sizes that are not multiples of "
+        "half a point (base, +0.1…0.45, −0.05…0.4, a hair above), the same texts at another size / another column "
+        "width / in another font, another RTF font number on the same file, another font at the same size, per-column "
+        "sizes, and two members that raise after pagination has measured (ValueError, IndexError); histories: both "
+        "orders of every pair of members enumerated across the run (two of three histories) or random, with failing "
+        "encodes, encode-twice, drops and direct get_string_width calls (the target's own texts, same / nearby size, "
+        "same / sibling / other font, units in/mm/px, dpi 72/96/300, invalid unit or font raising) in between")
 TRUSTED = [
     "Lean 4.33 kernel; axioms ⊆ {propext, Classical.choice, Quot.sound} (audited per theorem on every run)",
     "Lean compiler for the driver executable",
@@ -66,7 +82,11 @@ MANIFEST = dict(
          "model is tied to the code on every run by a unit correspondence of the colour-index functions and by "
          "operation histories on the real library whose target output must be byte-identical to a fresh subprocess.",
     note="Outcome = state-dependent projection (colour table, indices, width vectors, strategies, error kind); byte "
-         "equality with a fresh interpreter is checked on the implementation, not proved. Thread interleavings are C15.",
+         "equality with a fresh interpreter is checked on the implementation, not proved. Thread interleavings are C15. "
+         "String measurement is stateless in the code (no store; Op.measure is a no-op of the model); Props/C14memo "
+         "proves that a keyed store in front of it keeps purity iff the key determines the stored value, and the "
+         "measured family of the histories (texts at a wrap edge, nearby non-half-point sizes, direct "
+         "get_string_width calls) makes any other behaviour move a page break.",
     technique="Lean 4 proof (invariant over reachable worlds, induction over histories) + history-based differential "
               "check against a fresh interpreter",
     design="7/C14",
@@ -338,7 +358,7 @@ def doc_comp_ids(dd):
 
 def gen_history(rng, pool, labels):
     docs = pool["docs"]
-    nd = len(docs)
+    nd = pool.get("n_base", len(docs))     # the measured family (appended after the base pool) has its own histories
     target = rng.randrange(nd)
     tids = set(doc_comp_ids(docs[target])) | {("f", f) for f, _ in docs[target]["secs"]}
     related = [i for i in range(nd)
@@ -348,7 +368,7 @@ def gen_history(rng, pool, labels):
         hs = [] if h == "default" else (h["flat"] if "flat" in h else [x for sec in h["nested"] for x in sec if x is not None])
         return set(b for _, b in dd["secs"]) | set(hs)
     close = [i for i in range(nd) if i != target and bh(docs[i]) & bh(docs[target])]   # share a body or a header
-    failing = [i for i, l in enumerate(labels) if "fail" in l or "IndexError" in l]
+    failing = [i for i, l in enumerate(labels[:nd]) if "fail" in l or "IndexError" in l]
     ops, kinds = [], []
     live = {}
     slot = 0
@@ -393,6 +413,210 @@ def gen_history(rng, pool, labels):
     return hist, nt
 
 
+
+# ------------------------------------------------------------------ measured family (string widths near a wrap edge)
+
+SAME_FILE = {1: [2, 10], 2: [1, 10], 10: [1, 2], 3: [4, 5], 4: [3, 5], 5: [3, 4], 6: [], 7: [], 8: []}
+LADDER = (0.0015, 0.003, 0.006, 0.012, 0.024, 0.048)
+
+
+def greedy_pages(line_counts, avail):
+    """`_assign_pages` without forced breaks"""
+    out, page, cur = [], 1, 0
+    for h in line_counts:
+        if cur + h > avail and cur > 0:
+            page, cur = page + 1, 0
+        out.append(page)
+        cur += h
+    return out
+
+
+def gen_measured(rng, pool, labels):
+    """Append to the pool a family of documents whose page breaks depend on string widths within a fraction of a
+    percent: members use ONE font file at nearby sizes that are not multiples of half a point (and the same size
+    with another font, the same texts at another size, another RTF font number on the same file), two members fail
+    to encode after pagination has measured their cells.  Every member's frame carries 'ladder' cells whose Pillow
+    width at the member's own (font, size) is k·(1+δ) times its column width, δ = ±0.15 % … ±4.8 %, followed by
+    one-line rows, in an order for which a drift of ±0.8 % or more of the measured widths moves a page break for
+    every plausible number of rows available per page."""
+    from . import c14_fit as F
+
+    comps, frames, docs = pool["components"], pool["frames"], pool["docs"]
+
+    def add(cls, **kw):
+        comps.append(dict(cls=cls, kw=kw))
+        return len(comps) - 1
+
+    f = rng.choice([1, 1, 2, 4, 4, 6, 7, 8, 10, 3, 5])
+    other = rng.choice([x for x in (1, 4, 6, 7, 8, 9) if F.font_file(x) != F.font_file(f)])
+    s0 = rng.choice([8, 9, 9, 9.5, 10, 10.5, 11, 12])
+    s_up = round(s0 + rng.choice([0.1, 0.2, 0.25, 0.3, 0.4, 0.45]), 2)       # same ⌊2s⌋, same ⌈s⌉ (or s0 integer)
+    s_dn = round(s0 - rng.choice([0.05, 0.1, 0.2, 0.25, 0.3, 0.4]), 2)       # same round(2s) / round(s) / ⌈s⌉
+    s_up2 = round(s_up + rng.choice([0.03, 0.05]), 2)                         # a hair apart
+    nrow = rng.randint(7, 11)
+    total = rng.choice([None, 5.8, 6.6])
+    page = add("RTFPage", nrow=nrow, **({} if total is None else {"col_width": total}))
+    tot = 6.25 if total is None else total
+    info = dict(font=f, other_font=other, members=[], failing=[], texts=[])
+
+    def frame_for(font, size, col):
+        """rows: [g, id, ladder text]; ladder rows first (shuffled), then one-line rows"""
+        fill = [(f"row {i}", F.width_in(f"row {i}", font, size)) for i in range(nrow + 2)]
+        for _ in range(8):
+            cells = []
+            for d in LADDER:
+                for sign in (-1, 1):
+                    k = rng.choice([1, 1, 2])
+                    for _try in range(12):
+                        t, w = F.fit_text(rng, font, size, k * (1 + sign * d) * col)
+                        got = w / (k * col) - 1
+                        if got * sign > 0 and 0.55 * d <= abs(got) <= 1.6 * d:
+                            cells.append((t, w))
+                            break
+            # any drift ≥ 0.8 % of the measured widths must move a break, whatever the rows available per page
+            for _shuffle in range(60):
+                rng.shuffle(cells)
+                rows = cells + fill
+                ok = True
+                for avail in range(max(3, nrow - 4), nrow + 1):
+                    base = greedy_pages([F.lines(w, col) for _, w in rows], avail)
+                    for drift in (0.992, 1.008, 0.979, 1.021, 0.95, 1.05):
+                        if greedy_pages([F.lines(w * drift, col) for _, w in rows], avail) == base:
+                            ok = False
+                if ok:
+                    break
+            if ok:
+                break
+        info["sensitive"] = info.get("sensitive", 0) + (1 if ok else 0)
+        g = ["A", "B", "A"] + ["C"] * (len(rows) - 3)            # non-contiguous: group_by=['g'] raises ValueError
+        return dict(cols=["g", "id", "txt"], rows=[[g[i], f"{i:02d}", t] for i, (t, _) in enumerate(rows)]), \
+            [t for t, _ in cells]
+
+    def member(label, font, size, frame=None, col=None, size_other=None, **body_kw):
+        col = col if col is not None else round(rng.uniform(2.6, 3.6), 3)
+        rest = tot - col
+        a = round(rest * rng.uniform(0.3, 0.5), 3)
+        widths = [a, round(rest - a, 3), col]
+        if frame is None:
+            fr, texts = frame_for(font, size, tot * col / sum(widths))
+            frames.append(fr)
+            frame = len(frames) - 1
+            info["texts"].append(dict(frame=frame, font=font, size=size, texts=texts))
+        fs = size if size_other is None else [[size_other, size_other, size]]
+        b = add("RTFBody", col_rel_width=widths, text_font=[font], text_font_size=fs, **body_kw)
+        docs.append(dict(kind="single", secs=[[frame, b]], headers="default", page=page, title=None, subline=None,
+                         footnote=None, source=None, page_header=None, page_footer=None, figure=None))
+        labels.append(label)
+        did = len(docs) - 1
+        (info["failing"] if "fail" in label else info["members"]).append(did)
+        return did, frame, col, widths
+
+    dA, fA, colA, _ = member("measured-base-size", f, s0)
+    dB, fB, colB, _ = member("measured-size-above", f, s_up, size_other=rng.choice([None, s0]))
+    member("measured-size-below", f, s_dn)
+    member("measured-size-hair-above", f, s_up2)
+    member("measured-same-texts-other-size", f, rng.choice([s_up, s_dn]), frame=fA, col=colA)
+    member("measured-same-texts-other-column-width", f, s0, frame=fA,
+           col=round(colA * (1 + rng.choice([-1, 1]) * rng.choice([0.004, 0.01, 0.03])), 4))
+    sib = SAME_FILE.get(f) or []
+    if sib:
+        member("measured-same-file-other-font-number", rng.choice(sib), rng.choice([s_up, s_dn, s0]))
+    member("measured-other-font-same-size", other, rng.choice([s0, s_up]))
+    member("measured-other-font-same-texts", other, s_up, frame=fB, col=colB)
+    # failing after pagination measured the cells: non-contiguous group_by (ValueError), widths shorter than the frame
+    member("measured-fail-group_by", f, rng.choice([s_up, s_dn, s0]), frame=rng.choice([fA, fB]),
+           col=rng.choice([colA, colB]), group_by=["g"])
+    did, _, _, w = member("measured-fail-short-widths", f, rng.choice([s_up, s_dn]), frame=rng.choice([fA, fB]), col=colA)
+    comps[docs[did]["secs"][0][1]]["kw"]["col_rel_width"] = w[:2]
+    docs[did]["headers"] = dict(flat=[])
+    info["sizes"] = dict(base=s0, above=s_up, below=s_dn, hair=s_up2)
+    pool["measured"] = info
+    return info
+
+
+FONT_NAMES = {1: "Times New Roman", 2: "Times New Roman Greek", 3: "Arial Greek", 4: "Arial", 5: "Helvetica", 6: "Calibri",
+              7: "Georgia", 8: "Cambria", 9: "Courier New", 10: "Symbol"}
+
+
+def gen_measured_history(rng, pool, labels, j=None):
+    """target = a member of the measured family; prior operations: other members (encode, twice, construct),
+    failing members, direct `get_string_width` calls on the target's own texts (other size / font / unit / dpi, some
+    raising), now and then a document of the base pool.  With `j` given, the history starts with an encode of the
+    partner of the j-th ordered pair of members (both orders of every pair, enumerated across the run); without,
+    all prior operations are random (so that histories made of failing encodes or direct measurements only exist)."""
+    info, docs = pool["measured"], pool["docs"]
+    fam = info["members"]
+    target = rng.choice(fam + (info["failing"] if rng.random() < 0.08 else []))
+    first = None
+    if j is not None:
+        pairs = [p for a in range(len(fam)) for b in range(a + 1, len(fam)) for p in ((fam[a], fam[b]), (fam[b], fam[a]))]
+        target, first = pairs[j % len(pairs)]
+    body = pool["components"][docs[target]["secs"][0][1]]["kw"]
+    tfont = body["text_font"][0]
+    tsize = body["text_font_size"] if not isinstance(body["text_font_size"], list) else body["text_font_size"][0][-1]
+    tframe = docs[target]["secs"][0][0]
+    texts = [r[2] for r in pool["frames"][tframe]["rows"]]
+    sizes = sorted(set(list(info["sizes"].values()) + [tsize]))
+    ops, kinds, live, slot = [], [], {}, 0
+    nprior = rng.choice([1, 1, 2, 2, 3, 4])
+    for i_op in range(nprior):
+        r = rng.random()
+        if first is not None and i_op == 0:
+            r = 0.5
+        if r < 0.22:
+            # a direct measurement
+            bad = rng.random() < 0.2
+            q = dict(text=rng.choice(texts[:12] + texts[:12] + ["row 1", "x"]),
+                     font=rng.choice([tfont, tfont, FONT_NAMES[tfont], info["other_font"]] + (SAME_FILE.get(tfont) or [])),
+                     font_size=rng.choice(sizes + [tsize]), unit=rng.choice(["in", "mm", "px", "px"]),
+                     dpi=rng.choice([72.0, 96.0, 300.0]))
+            if rng.random() < 0.5:
+                # the very request the target's pagination will make, in another unit / at another resolution
+                q.update(font=rng.choice([tfont, FONT_NAMES[tfont]]), font_size=tsize)
+                q.update(rng.choice([dict(unit="px"), dict(unit="mm"), dict(dpi=96.0), dict(unit="mm", dpi=300.0)]))
+            if bad:
+                q.update(rng.choice([dict(unit="cm"), dict(font=11), dict(font="Comic Sans")]))
+            ops.append(["measure", q])
+            kinds.append("measure:" + ("raises" if bad else f"{q['unit']}@{int(q['dpi'])}"
+                                       + ("" if q["font_size"] == tsize else "-other-size")
+                                       + ("" if q["font"] in (tfont, FONT_NAMES[tfont]) else "-other-font")))
+            continue
+        if r < 0.42:
+            what, did = "fail", rng.choice(info["failing"])
+        elif r < 0.92:
+            what = rng.choice(["encode", "encode", "encode", "twice", "construct"])
+            did = rng.choice([d for d in fam if d != target] or fam)
+            if first is not None and i_op == 0:
+                what, did = rng.choice(["encode", "encode", "twice"]), first
+        else:
+            what, did = "encode", rng.randrange(pool.get("n_base", len(docs)))
+        use_live = [s for s, d in live.items() if d == did]
+        if what != "construct" and use_live and rng.random() < 0.4:
+            s = rng.choice(use_live)
+        else:
+            s = slot
+            slot += 1
+            ops.append(["construct", s, did])
+            live[s] = did
+        if what in ("encode", "fail"):
+            ops.append(["encode", s])
+        elif what == "twice":
+            ops.append(["twice", s])
+        kinds.append(what + ":" + labels[did])
+        if rng.random() < 0.25:
+            ops.append(["drop", s])
+            live.pop(s, None)
+    reuse = None
+    cand = [s for s, d in live.items() if d == target]
+    if cand and rng.random() < 0.5:
+        reuse = rng.choice(cand)
+    hist = dict(ops=ops, target=target, reuse=reuse, target_twice=rng.random() < 0.3)
+    nt = None
+    if any(o[0] in ("encode", "twice", "measure") for o in ops):
+        nt = ("measured", tuple(kinds), labels[target], reuse is not None)
+    return hist, nt
+
+
 def corpus(names):
     """hand-written histories that reproduced D18, D22 and the shared-width defect on earlier trees"""
     comps = [dict(cls="RTFBody", kw={}),                                              # 0 shared width-less body
@@ -403,11 +627,19 @@ def corpus(names):
              dict(cls="RTFBody", kw=dict(col_rel_width=[1, 3, 1])),                    # 5
              dict(cls="RTFBody", kw=dict(col_rel_width=[3, 1, 1])),                    # 6
              dict(cls="RTFFootnote", kw=dict(text="fn")),                              # 7
-             dict(cls="RTFBody", kw={})]                                               # 8
+             dict(cls="RTFBody", kw={}),                                               # 8
+             # round-7 seeded change (loaded fonts keyed by int(2*size)): a 9.7 pt listing whose comment cells are
+             # within 2 % of their column, and an ordinary 9.5 pt listing
+             dict(cls="RTFBody", kw=dict(col_rel_width=[3.15, 3.10], text_font_size=9.7)),   # 9
+             dict(cls="RTFPage", kw=dict(nrow=10)),                                          # 10
+             dict(cls="RTFBody", kw=dict(text_font_size=9.5))]                               # 11
     f3 = dict(cols=["g", "s", "c0"], rows=[["A", "x", "1"], ["B", "x", "2"]])
     f4 = dict(cols=["g", "s", "c0", "c1"], rows=[["A", "x", "1", "2"], ["A", "x", "3", "4"]])
     fbad = dict(cols=["g", "s", "c0"], rows=[["A", "x", "1"], ["B", "x", "2"], ["A", "x", "3"]])
     f5 = dict(cols=["g", "s", "c0", "c1", "c2"], rows=[["A", "x", "1", "2", "3"]])
+    fcom = dict(cols=["ID", "Comment"],
+                rows=[[f"{i:03d}", "Subject discontinued study treatment because of a treatme"] for i in range(8)])
+    fsite = dict(cols=["Site", "N"], rows=[["01", "10"], ["02", "12"]])
 
     def d(kind, secs, headers="default", **o):
         dd = dict(kind=kind, secs=secs, headers=headers)
@@ -420,16 +652,22 @@ def corpus(names):
             d("multi", [[0, 2], [0, 3]]),                # 3: multi-section red/blue
             d("multi", [[0, 8], [3, 8]], footnote=7),    # 4: sections of 3 and 5 columns, one body object (D22 shape)
             d("single", [[0, 5]], dict(flat=[4])),       # 5: shared header, widths [1,3,1]
-            d("single", [[0, 6]], dict(flat=[4]))]       # 6: shared header, widths [3,1,1]
-    pool = dict(components=comps, frames=[f3, f4, fbad, f5], docs=docs)
-    labels = ["shared-3col", "shared-4col", "fail-blue", "multi", "multi-2-5", "hdr-131", "hdr-311"]
+            d("single", [[0, 6]], dict(flat=[4])),       # 6: shared header, widths [3,1,1]
+            d("single", [[4, 9]], page=10),              # 7: 9.7 pt, cells at the wrap edge, 10 rows per page
+            d("single", [[5, 11]])]                      # 8: 9.5 pt
+    pool = dict(components=comps, frames=[f3, f4, fbad, f5, fcom, fsite], docs=docs)
+    labels = ["shared-3col", "shared-4col", "fail-blue", "multi", "multi-2-5", "hdr-131", "hdr-311", "edge-9.7pt", "plain-9.5pt"]
     hs = [dict(ops=[["construct", 0, 0]], target=1, reuse=None, target_twice=False),
           dict(ops=[["construct", 0, 1]], target=0, reuse=None, target_twice=True),
           dict(ops=[["construct", 0, 2], ["encode", 0]], target=3, reuse=None, target_twice=False),
           dict(ops=[["construct", 0, 2], ["encode", 0], ["drop", 0]], target=0, reuse=None, target_twice=False),
           dict(ops=[["construct", 0, 4], ["twice", 0]], target=4, reuse=0, target_twice=True),
           dict(ops=[["construct", 0, 5], ["encode", 0]], target=6, reuse=None, target_twice=False),
-          dict(ops=[["construct", 0, 6]], target=5, reuse=None, target_twice=False)]
+          dict(ops=[["construct", 0, 6]], target=5, reuse=None, target_twice=False),
+          dict(ops=[["construct", 0, 8], ["encode", 0]], target=7, reuse=None, target_twice=False),
+          dict(ops=[["construct", 0, 7], ["encode", 0]], target=8, reuse=None, target_twice=True),
+          dict(ops=[["measure", dict(text="x", font=1, font_size=9.5, unit="px", dpi=96.0)]], target=7, reuse=None,
+               target_twice=False)]
     return pool, labels, hs
 
 
@@ -448,6 +686,8 @@ def model_request(pool, hist, ob):
             ops.append(dict(op="construct", n=op[1], ctor=ctor_of(pool["docs"][op[2]])))
         elif op[0] == "lookup":
             ops.append(dict(op="lookup", c=op[1]))
+        elif op[0] == "measure":
+            ops.append(dict(op="measure"))
         else:
             ops.append(dict(op=op[0], n=op[1]))
     return dict(op="c14_world", heap=[[i, h] for i, h in enumerate(ob["heap0"])],
@@ -490,12 +730,44 @@ def parse_colors(s):
     return codes, used - {0}, brd - {0}
 
 
+def expected_measure(q):
+    from . import c14_fit as F
+
+    valid_font = q["font"] in FONT_NAMES or q["font"] in FONT_NAMES.values()
+    if not valid_font or q["unit"] not in ("in", "mm", "px"):
+        return dict(cls="ValueError")
+    return dict(val=float(F.pure_string_width(q["text"], q["font"], q["font_size"], q["unit"], q["dpi"])))
+
+
 def kind_of_model(o):
     return "ok" if "ok" in o else o["err"]
 
 
 def kind_of_impl(o):
     return "ok" if "ok" in o else o["cls"]
+
+
+def typeset_note(pool, hist, labels):
+    """font / size of the bodies of the documents a history touches (what the measured family varies)"""
+    def ts(did):
+        out = []
+        for _, b in pool["docs"][did]["secs"]:
+            kw = pool["components"][b]["kw"]
+            if "text_font" in kw or "text_font_size" in kw:
+                out.append(f"font {kw.get('text_font', [1])} size {kw.get('text_font_size', 9)}")
+        return "; ".join(out)
+    dids = [o[2] for o in hist["ops"] if o[0] == "construct"]
+    notes = [f"{labels[d]}: {ts(d)}" for d in dict.fromkeys(dids + [hist["target"]]) if ts(d)]
+    ms = [o[1] for o in hist["ops"] if o[0] == "measure"]
+    if ms:
+        notes.append("direct get_string_width calls: " + "; ".join(
+            f"font {q['font']!r} size {q['font_size']} unit {q['unit']} dpi {q['dpi']}" for q in ms))
+    return ("  [typesetting — " + " | ".join(notes) + "]") if notes and ts(hist["target"]) else ""
+
+
+def pages_note(t, f):
+    a, b = (t.get("out") or {}).get("pages"), (f.get("out") or {}).get("pages")
+    return f"  (pages: {a} after the history, {b} fresh)" if a is not None and b is not None else ""
 
 
 def judge(res, case, pool, hist, ob, fresh, mdl, orc):
@@ -505,7 +777,8 @@ def judge(res, case, pool, hist, ob, fresh, mdl, orc):
         t, f = target_obs(ob["target"]), target_obs(fresh)
         why = []
         if "history-dependent" in orc["violations"]:
-            why.append(f"target after the history: {t}  vs fresh interpreter: {f}")
+            why.append(f"target after the history: {t}  vs fresh interpreter: {f}" + pages_note(ob["target"], fresh)
+                       + typeset_note(pool, hist, case.get("labels") or []))
         if "encode-twice-differs" in orc["violations"]:
             why.append("two consecutive rtf_encode() calls on one document differ")
         if "frame-modified" in orc["violations"]:
@@ -533,6 +806,13 @@ def judge(res, case, pool, hist, ob, fresh, mdl, orc):
         elif k == "lookup":
             if o["idx"] != "unavailable" and mo.get("looked") != o["idx"]:
                 dis.append(f"colour lookup outside an encode: model {mo.get('looked')} vs implementation {o['idx']}")
+        elif k == "measure":
+            # the model: no state behind a measurement, i.e. the stateless Pillow function of the call's arguments
+            q = hist["ops"][mi][1]          # one observation per operation, in order
+            exp = expected_measure(q)
+            got = dict(val=o["val"]) if "val" in o else dict(cls=o["cls"])
+            if got != exp:
+                dis.append(f"get_string_width({q}) after the history: {got}  vs the stateless measurement: {exp}")
         if k in ("encode", "twice") and not o.get("missing"):
             if o.get("ctx") == "unavailable":
                 res.count("ctx_peek_unavailable")
@@ -679,6 +959,8 @@ def execute(res, work, hashseed, fresh_cache, strings=False):
                 res.count("prior_encode:" + ("ok" if "ok" in o["out"] else o["out"]["cls"]))
             elif o["kind"] in ("twice", "construct", "drop", "lookup"):
                 res.count("prior_" + o["kind"])
+            elif o["kind"] == "measure":
+                res.count("prior_measure:" + ("value" if "val" in o else o["cls"]))
         t = ob["target"]
         res.count("target_outcome:" + ("construct-error" if "construct" in t else kind_of_impl(t["out"])))
         if h.get("reuse") is not None:
@@ -695,6 +977,7 @@ def run(res: common.Result, build) -> int:
     quick = res.tier == "quick"
     rounds = 6 if quick else 32
     per_round = 25 if quick else 100
+    per_measured = 18 if quick else 36
     fresh_cache = {}
     work = []
     cpool, clabels, chists = corpus(names)
@@ -702,8 +985,19 @@ def run(res: common.Result, build) -> int:
         work.append(("corpus", cpool, clabels, h, ("corpus", json.dumps(h["ops"]), h["target"])))
     for r in range(rounds):
         pool, labels = gen_round(sub_rng(res.seed, "c14pool", r), names)
+        pool["n_base"] = len(pool["docs"])
+        info = gen_measured(sub_rng(res.seed, "c14measured", r), pool, labels)
+        res.count("measured_family_frames", len(info["texts"]))
+        res.count("measured_family_frames_break_moves_under_0.8pct_drift", info["sensitive"])
         for k in range(per_round):
             h, nt = gen_history(sub_rng(res.seed, "c14hist", r, k), pool, labels)
+            work.append((r, pool, labels, h, nt))
+        for k in range(per_measured):
+            # two of three histories start with the next ordered pair of family members
+            n_pair = (r * per_measured + k) // 3 * 2 + k % 3
+            h, nt = gen_measured_history(sub_rng(res.seed, "c14mhist", r, k), pool, labels,
+                                         None if k % 3 == 2 else n_pair + 29 * res.seed)
+            res.count("measured_history:" + ("random-ops" if k % 3 == 2 else "ordered-pair-first"))
             work.append((r, pool, labels, h, nt))
     seeds = [1 + rng.randrange(4_000_000_000)]
     execute(res, work, seeds[0], fresh_cache)
@@ -733,7 +1027,11 @@ def run(res: common.Result, build) -> int:
                     "result) holds after every operation, failing encodes included, for histories of any length. "
                     "C14_purity, C14_purity_constructed, C14_encode_twice, C14_frames_unchanged, C14_heap_unchanged, "
                     "C14_equal_valued, C14_hashseed(_table), C14_spec_of_model follow. C14_legacy_*_witness show that "
-                    "the model distinguishes the pre-repair behaviours (D18, shared widths).")
+                    "the model distinguishes the pre-repair behaviours (D18, shared widths). C14memo_*: a process-global "
+                    "keyed store (cache) in front of a stateless function keeps every answer history-independent iff "
+                    "its key determines the value (C14memo_pure_iff); lifted to the world with encodes and direct "
+                    "measurements filling the store (C14memo_world_purity); loaded fonts keyed by (file, int(2*size)) "
+                    "or by size alone are witnesses of the other kind.")
 
 
 def replay(payload) -> int:
